@@ -225,6 +225,12 @@ fn exec_scripted(ctx: &mut Ctx, c: &Case, next_tag: &mut u64, limit: i32) -> Res
             fds.push(fd);
             *next_tag += 1;
         }
+        if si > 0 && (si + c.stream.len()) % 2 == 0 {
+            if let Some(e) = r.empty_read(si % 4 == 0) {
+                return Err(("fault".into(), e));
+            }
+            ctx.rep.count("empty_reads_between_segments");
+        }
         r.script.push_read(ReadEv::Data(c.stream[start..end].to_vec(), fds));
         start = end;
         let mut first = true;
